@@ -41,7 +41,7 @@ func split(ctx context.Context, r io.Reader) (<-chan string, <-chan error) {
 			}
 		}
 		if err := sc.Err(); err != nil {
-			errc <- err
+			sendErr(ctx, errc, err)
 			return
 		}
 		select {
@@ -53,6 +53,15 @@ func split(ctx context.Context, r io.Reader) (<-chan string, <-chan error) {
 	}()
 
 	return blockc, errc
+}
+
+// sendErr hands err to a stage's error channel unless the pipeline has been cancelled.
+// Only the first error of a stage is ever received, so a plain send could block forever.
+func sendErr(ctx context.Context, errc chan<- error, err error) {
+	select {
+	case errc <- err:
+	case <-ctx.Done():
+	}
 }
 
 func isRootBlockBeginning(l string) bool {
